@@ -375,6 +375,16 @@ TYPE_MENTIONS_BAD = [
      "start :: fn do\n    print(outer())\nend", "Point :: blob { x: int }"],
     ["E :: enum\n    A P,\n    B,\nend", "P :: blob { x: int }", "start :: fn do\n    e :: E.A 3\n    print(1)\nend"],
 ]
+# chains of forward mentions (the first paragraph order is the one in which every mention precedes its declaration)
+TYPE_MENTIONS_BAD += [
+    ["A :: blob { b: B }", "B :: blob { c: C }", "C :: blob { v: int }", "f :: fn a: A do\n    a.b.c.v = \"str\"\nend", _START1],
+    ["A :: blob { b: B }", "B :: blob { c: C }", "C :: blob { d: D }", "D :: blob { v: int }",
+     "start :: fn do\n    a :: A { b: B { c: C { d: D { v: true } } } }\n    print(1)\nend"],
+    ["E :: enum\n    V A,\n    W,\nend", "A :: blob { b: B }", "B :: blob { x: int }",
+     "start :: fn do\n    e :: E.V A { b: B { x: \"s\" } }\n    print(1)\nend"],
+    ["A :: blob { l: [B] }", "B :: blob { t: (C, int) }", "C :: blob { v: int }",
+     "f :: fn a: A -> str do\n    ret a.l[0].t[0].v\nend", _START1],
+]
 TYPE_MENTIONS_GOOD = [
     ["make :: fn -> Point do\n    ret Point { x: 1, y: 2 }\nend", "start :: fn do\n    p :: make()\n    print(p.x)\nend",
      "Point :: blob { x: int, y: int }"],
@@ -385,6 +395,8 @@ TYPE_MENTIONS_GOOD = [
     ["A :: blob { b: B }", "B :: blob { x: int }", "start :: fn do\n    a :: A { b: B { x: 4 } }\n    print(a.b.x)\nend"],
     ["h :: fn f: fn -> Point -> int do\n    ret f().x\nend", "k :: fn -> Point do\n    ret Point { x: 7 }\nend",
      "start :: fn do\n    print(h(k))\nend", "Point :: blob { x: int }"],
+    ["A :: blob { b: B }", "B :: blob { c: C }", "C :: blob { v: int }", "f :: fn a: A -> int do\n    ret a.b.c.v\nend",
+     "start :: fn do\n    print(f(A { b: B { c: C { v: 5 } } }))\nend"],
 ]
 
 
